@@ -408,14 +408,14 @@ def check(ctx):
     hints = set(obl[n][2] for n in failed if obl[n][2])
 
     s = Search(ctx, exe)
-    t_end = time.time() + (55 if quick else 600)
+    t_end = time.time() + (60 if quick else 720)
     # corpus first
     for name, obj in corpus_cases():
         s.one(parse_workloads(obj["workloads"]), repeat=2)
     rng = ctx.rng("workloads")
     rounds = 0
     sizes = [2, 2, 3, 4, 8, 16] if quick else [2, 2, 2, 3, 3, 4, 4, 6, 8, 8, 12, 16]
-    max_rounds = 14 if quick else 150
+    max_rounds = 90 if quick else 400
     while rounds < max_rounds and time.time() < t_end:
         n = sizes[rounds % len(sizes)]
         hint = "pool" if ("pool" in hints and rounds % 2 == 0) else None
